@@ -57,9 +57,25 @@ func (s *slot) close() {
 	}
 }
 
+func scratchRoot() string {
+	if d := os.Getenv("VERIF_SCRATCH"); d != "" {
+		return d
+	}
+	if fi, err := os.Stat("/dev/shm"); err == nil && fi.IsDir() {
+		return "/dev/shm"
+	}
+	return ""
+}
+
 func (e *Engine) tmp() string {
 	if e.dir == "" {
-		d, err := os.MkdirTemp("", "c07-")
+		// Scratch files are real files (open, append, flock, mmap, rename) but nothing here depends
+		// on the medium: prefer tmpfs so that a loaded disk does not dominate the run time; fall
+		// back to TMPDIR (inside /verif/.work). The directory is removed at the end of every case.
+		d, err := os.MkdirTemp(scratchRoot(), "c07-")
+		if err != nil {
+			d, err = os.MkdirTemp("", "c07-")
+		}
 		if err != nil {
 			panic(err)
 		}
